@@ -109,6 +109,12 @@ def _min_image_ortho(d, L):
 
 
 def execute(trace, ctx):
+    if len(trace["ops"]) % 4 == 1 and not trace.get("_env"):
+        import warnings
+        ctx.probe("numpy_errors_raised_and_warnings_as_errors")
+        with np.errstate(all="raise"), warnings.catch_warnings():
+            warnings.simplefilter("error")
+            return execute(dict(trace, _env=True), ctx)
     box = np.array(trace["box"], dtype=float)
     inv = np.linalg.inv(box)
     kind = trace["kind"]
